@@ -33,6 +33,9 @@ struct MState {
     no_receivers: bool,
     slots: [Option<(Kind, u8)>; NSLOTS],
     next_val: u32,
+    /// fresh stream ids (a slot number is reused while an older stream that
+    /// was first held in that slot may still be alive)
+    next_sid: u8,
     /// futures tasks the model knows to be parked (NotReady was returned)
     stream_wait: [bool; NSLOTS],
     sink_wait: [bool; NSLOTS],
@@ -121,6 +124,7 @@ impl MState {
             no_receivers: false,
             slots,
             next_val: 1,
+            next_sid: NSLOTS as u8,
             stream_wait: [false; NSLOTS],
             sink_wait: [false; NSLOTS],
             expect_notify: Vec::new(),
@@ -308,14 +312,16 @@ impl MState {
             }
             AddStream | AddStreamWith => {
                 let cursor = self.streams[&sid].cursor;
+                let nsid = self.next_sid;
+                self.next_sid += 1;
                 self.streams.insert(
-                    o.dst,
+                    nsid,
                     MStream {
                         cursor,
                         handles: 1,
                     },
                 );
-                self.slots[o.dst as usize] = Some((kind, o.dst));
+                self.slots[o.dst as usize] = Some((kind, nsid));
                 vec![Res::Unit]
             }
             IntoSingle => {
@@ -995,7 +1001,6 @@ fn configs(prop: &str, tier: Tier) -> Vec<SeqCfg> {
             };
             let depth = match (prop, thorough) {
                 ("C09", false) | ("C15", false) => 5,
-                ("C09", true) | ("C15", true) => 7,
                 (_, false) => 5,
                 (_, true) => 6,
             };
@@ -1020,11 +1025,25 @@ fn configs(prop: &str, tier: Tier) -> Vec<SeqCfg> {
                 suffix: "",
                 pre: 0,
             });
+            if matches!(prop, "C09" | "C15") && thorough && cap == 1 {
+                // one level deeper over the quick tier's handle limits (depth 7
+                // over the thorough limits does not finish in half an hour)
+                let mut c7 = *v.last().unwrap();
+                c7.depth = 7;
+                c7.max_recv = 2;
+                c7.suffix = "+depth7";
+                v.push(c7);
+            }
             if matches!(prop, "C09" | "C13" | "C15") && cap == 1 {
                 // non-initial states of the reclamation manager: a cycle pending
                 // (24 retirements), and every count just below the threshold, so
                 // that the enumerated operations themselves cross it
-                let base = *v.last().unwrap();
+                let mut base = *v.last().unwrap();
+                if base.depth == 7 {
+                    base.depth = 6;
+                    base.max_recv = 3;
+                    base.suffix = "";
+                }
                 let mut c3 = base;
                 c3.pre = 24;
                 c3.depth -= 1;
@@ -1308,8 +1327,12 @@ fn crowd(st: &mut SeqStats, fl: Flavour, mode: usize, k: usize) {
         "sinks-parked-then-receive",
         "sinks-parked-then-last-receiver-dropped",
         "sinks-parked-then-poll",
+        "sinks-parked-then-lagging-stream-unsubscribed",
+        "sinks-parked-then-lagging-stream-dropped",
+        "stream-task-parked-then-many-polls-of-another-task-then-send",
+        "sink-task-parked-then-many-refused-sends-of-another-task-then-receive",
     ];
-    if fl == Flavour::M && (mode == 0 || mode == 2) {
+    if fl == Flavour::M && matches!(mode, 0 | 2 | 6 | 7 | 8) {
         return; // one stream only
     }
     let qc = crate::catalog::qf(fl, 1, (0, 0));
@@ -1317,7 +1340,13 @@ fn crowd(st: &mut SeqStats, fl: Flavour, mode: usize, k: usize) {
         "{}-fut|{}|{}",
         if fl == Flavour::B { "bcast" } else { "mpmc" },
         modes[mode],
-        if k > 8 { "more-than-8-parked" } else { "up-to-8-parked" }
+        if mode >= 8 {
+            if k * 4 >= 32 { "32-or-more-repeats" } else { "fewer-than-32-repeats" }
+        } else if k + (mode < 3) as usize > 8 {
+            "more-than-8-parked"
+        } else {
+            "up-to-8-parked"
+        }
     );
     let hist_s = format!("crowd mode={} k={}", modes[mode], k);
     rt::exec_begin();
@@ -1392,6 +1421,106 @@ fn crowd(st: &mut SeqStats, fl: Flavour, mode: usize, k: usize) {
                 }
             }
             let _ = got_val;
+        }
+        6 | 7 => {
+            // two streams; the side stream lags and holds the only slot; k sink
+            // tasks are refused; then the lagging stream goes away
+            run(opd(AddStream, 1, 14));
+            for &h in &extra {
+                run(opd(CloneH, 0, h));
+            }
+            let r = run(opv(TrySend, 0, 7));
+            if r != Some(Res::Ok) {
+                problems.push(("C15", format!("first try_send gave {:?}", r)));
+            }
+            let r = run(op(TryRecv, 1));
+            if r != Some(Res::Val(7)) {
+                problems.push(("C15", format!("try_recv gave {:?}", r)));
+            }
+            for (i, &h) in extra.iter().enumerate() {
+                let r = run(opv(StartSend, h, 20 + i as u32));
+                if r != Some(Res::NotReadyMsg(20 + i as u32)) {
+                    problems.push(("C15", format!("start_send on a queue held full by a lagging stream gave {:?}", r)));
+                }
+            }
+            let _ = rt::take_seq_notifies();
+            let ev = if mode == 6 { op(Unsub, 14) } else { op(DropH, 14) };
+            run(ev);
+            let notes = rt::take_seq_notifies();
+            let missing: Vec<u8> = extra.iter().copied().filter(|h| !notes.contains(&(200 + *h as usize))).collect();
+            if !missing.is_empty() {
+                let d = format!(
+                    "{} sink tasks parked behind a lagging stream; after {:?} of that stream the tasks of handles {:?} were not notified (notified: {:?})",
+                    extra.len(), ev.k, missing, notes
+                );
+                problems.push(("C14", d.clone()));
+                problems.push(("C11", d));
+            }
+            for (i, &h) in extra.iter().enumerate() {
+                let v = 20 + i as u32;
+                let r = run(opv(StartSend, h, v));
+                let ok = (i == 0 && r == Some(Res::Ready)) || (i > 0 && r == Some(Res::NotReadyMsg(v)));
+                if !ok {
+                    problems.push(("C11", format!("retry of start_send #{} after the lagging stream left gave {:?}", i, r)));
+                }
+            }
+        }
+        8 => {
+            // one stream task parked; another stream's task polls 4k times in
+            // vain (each poll registers it again); then one send
+            run(opd(AddStream, 1, 2));
+            let r = run(op(PollS, 1));
+            if r != Some(Res::NotReady) {
+                problems.push(("C15", format!("poll of an empty queue gave {:?}", r)));
+            }
+            for _ in 0..4 * k {
+                let r = run(op(PollS, 2));
+                if r != Some(Res::NotReady) {
+                    problems.push(("C15", format!("poll of an empty queue gave {:?}", r)));
+                }
+            }
+            let _ = rt::take_seq_notifies();
+            run(opv(TrySend, 0, 7));
+            let notes = rt::take_seq_notifies();
+            let missing: Vec<u8> = [1u8, 2].iter().copied().filter(|h| !notes.contains(&(100 + *h as usize))).collect();
+            if !missing.is_empty() {
+                problems.push(("C14", format!(
+                    "a stream task parked, then {} fruitless polls by another task; after the send the tasks of handles {:?} were not notified (notified: {:?})",
+                    4 * k, missing, notes
+                )));
+            }
+            for h in [1u8, 2] {
+                let r = run(op(PollS, h));
+                if r != Some(Res::Val(7)) {
+                    problems.push(("C15", format!("poll after the send gave {:?}", r)));
+                }
+            }
+        }
+        9 => {
+            // one sink task parked; another is refused 4k times; then a receive
+            run(opd(CloneH, 0, 2));
+            run(opd(CloneH, 0, 3));
+            run(opv(TrySend, 0, 7));
+            let r = run(opv(StartSend, 2, 20));
+            if r != Some(Res::NotReadyMsg(20)) {
+                problems.push(("C15", format!("start_send on a full queue gave {:?}", r)));
+            }
+            for _ in 0..4 * k {
+                let r = run(opv(StartSend, 3, 21));
+                if r != Some(Res::NotReadyMsg(21)) {
+                    problems.push(("C15", format!("start_send on a full queue gave {:?}", r)));
+                }
+            }
+            let _ = rt::take_seq_notifies();
+            run(op(TryRecv, 1));
+            let notes = rt::take_seq_notifies();
+            let missing: Vec<u8> = [2u8, 3].iter().copied().filter(|h| !notes.contains(&(200 + *h as usize))).collect();
+            if !missing.is_empty() {
+                problems.push(("C14", format!(
+                    "a sink task parked, then {} refused sends of another task; after the receive the tasks of handles {:?} were not notified (notified: {:?})",
+                    4 * k, missing, notes
+                )));
+            }
         }
         _ => {
             // k sink tasks park on a full queue (capacity 1)
@@ -1470,6 +1599,196 @@ fn crowd(st: &mut SeqStats, fl: Flavour, mode: usize, k: usize) {
     let mem = rt::exec_end();
     for m in &mem.faults {
         st.find("C16", format!("C16|{:?}|crowd|{}", m, label), &hist_s, format!("{:?}", m));
+    }
+}
+
+/// Population histories: K = 1..12 extra streams (broadcast) or consumer handles
+/// of one stream (mpmc) and up to 8 extra senders; one stream lags; then the
+/// streams leave in three different orders. Every result is compared with the
+/// reference model (the scan over the stream list, the list surgery on
+/// removal and the slowest-stream rule all depend on the population).
+fn many(st: &mut SeqStats, fl: Flavour, fut: bool, k: usize, lag: usize, order: usize) {
+    let qc = if fut {
+        crate::catalog::qf(fl, 2, (0, 0))
+    } else {
+        crate::catalog::q(fl, 2, WaitK::Busy)
+    };
+    let n = qc.n() as usize;
+    let c = SeqCfg {
+        qc,
+        max_senders: 12,
+        max_recv: 14,
+        max_streams: 14,
+        depth: 0,
+        orders: 1,
+        blocking: false,
+        uni_streams: false,
+        suffix: "",
+        pre: 0,
+    };
+    let label = format!(
+        "{}{}|{}",
+        if fl == Flavour::B { "bcast" } else { "mpmc" },
+        if fut { "-fut" } else { "" },
+        if k > 8 { "more-than-8" } else { "up-to-8" }
+    );
+    let mut ops: Vec<Op> = Vec::new();
+    let hs: Vec<u8> = (2..2 + k as u8).collect();
+    let mut val = 1u32;
+    let mut removal_from = usize::MAX;
+    if fl == Flavour::B {
+        for &h in &hs {
+            ops.push(opd(AddStream, 1, h));
+        }
+        let mut all: Vec<u8> = vec![1];
+        all.extend(&hs);
+        let lagh = all[lag % all.len()];
+        // extra senders, one send each while there is room
+        let ns = k.min(8);
+        for i in 0..ns {
+            ops.push(opd(CloneH, 0, 14 + i as u8));
+        }
+        for i in 0..n {
+            ops.push(opv(TrySend, if i < ns { 14 + i as u8 } else { 0 }, val));
+            val += 1;
+        }
+        for &h in &all {
+            for i in 0..n {
+                if h == lagh && i == n - 1 {
+                    continue;
+                }
+                ops.push(op(TryRecv, h));
+            }
+        }
+        for _ in 0..2 {
+            ops.push(opv(TrySend, 0, val));
+            val += 1;
+        }
+        ops.push(op(TryRecv, lagh));
+        for _ in 0..2 {
+            ops.push(opv(TrySend, 0, val));
+            val += 1;
+        }
+        for i in 0..ns {
+            ops.push(op(DropH, 14 + i as u8));
+        }
+        // the streams leave: ascending, descending, the lagging one first
+        let mut leave = all.clone();
+        match order {
+            0 => {}
+            1 => leave.reverse(),
+            _ => {
+                leave.retain(|h| *h != lagh);
+                leave.insert(0, lagh);
+            }
+        }
+        removal_from = ops.len();
+        for (i, &h) in leave.iter().enumerate() {
+            if i + 1 == leave.len() {
+                // the last stream drains before it leaves
+                for _ in 0..=n {
+                    ops.push(op(TryRecv, h));
+                }
+            }
+            ops.push(opv(Unsub, h, fut as u32));
+            ops.push(opv(TrySend, 0, val));
+            val += 1;
+        }
+    } else {
+        for &h in &hs {
+            ops.push(opd(CloneH, 1, h));
+        }
+        let mut all: Vec<u8> = vec![1];
+        all.extend(&hs);
+        let ns = k.min(8);
+        for i in 0..ns {
+            ops.push(opd(CloneH, 0, 14 + i as u8));
+        }
+        // three rounds: fill, one extra (refused), consumers take turns
+        for round in 0..3 {
+            for i in 0..=n {
+                let snd = if ns > 0 { 14 + ((i + round) % ns) as u8 } else { 0 };
+                ops.push(opv(TrySend, snd, val));
+                val += 1;
+            }
+            for i in 0..=n {
+                ops.push(op(TryRecv, all[(i + round + lag) % all.len()]));
+            }
+        }
+        let mut leave = all.clone();
+        if order == 1 {
+            leave.reverse();
+        } else if order == 2 {
+            leave.rotate_left(lag % all.len());
+        }
+        removal_from = ops.len();
+        for &h in &leave {
+            ops.push(opv(TrySend, 0, val));
+            val += 1;
+            ops.push(op(TryRecv, h));
+            ops.push(opv(Unsub, h, fut as u32));
+        }
+        ops.push(opv(TrySend, 0, val));
+    }
+    let hsr = ops_to_string(&ops);
+    let mut ms = MState::new(n);
+    let mut preds = Vec::new();
+    let mut pred_of_op: Vec<usize> = Vec::new();
+    for (i, o) in ops.iter().enumerate() {
+        let r = ms.step(o, fl);
+        for _ in 0..r.len() {
+            pred_of_op.push(i);
+        }
+        preds.extend(r);
+    }
+    let out = run_history(&c, &ops, 0, st, &hsr, true);
+    st.histories += 1;
+    st.states.insert(ms.key() ^ ((k as u64) << 44) ^ ((lag as u64) << 50) ^ ((order as u64) << 56));
+    st.depth = st.depth.max(ops.len());
+    let real: Vec<Res> = out.evs.iter().map(|e| e.res.clone()).collect();
+    if real != preds {
+        let i = real
+            .iter()
+            .zip(preds.iter())
+            .position(|(a, b)| a != b)
+            .unwrap_or(real.len().min(preds.len()));
+        let oi = pred_of_op.get(i).copied().unwrap_or(ops.len() - 1);
+        let opi = &ops[oi];
+        let exp = preds.get(i).map(res_class).unwrap_or("nothing".into());
+        let got = real.get(i).map(res_class).unwrap_or("nothing".into());
+        let detail = format!("{} extra handles/streams, lagging #{}, leave order {}: event {} ({:?} on handle {}) differs: model {:?}, implementation {:?}",
+            k, lag, order, i, opi.k, opi.h, preds.get(i), real.get(i));
+        st.find(
+            "C09",
+            format!("C09|model-mismatch|population|op={:?}|expected={}|got={}|{}", opi.k, exp, got, label),
+            &hsr,
+            detail.clone(),
+        );
+        if matches!(opi.k, TrySend | StartSend) {
+            let prop = if oi >= removal_from { "C11" } else { "C03" };
+            st.find(
+                prop,
+                format!("{}|population|send-differs-from-model|expected={}|got={}|{}", prop, exp, got, label),
+                &hsr,
+                detail.clone(),
+            );
+        }
+        if matches!(opi.k, TryRecv) {
+            st.find(
+                "C01",
+                format!("C01|population|receive-differs-from-model|expected={}|got={}|{}", exp, got, label),
+                &hsr,
+                detail.clone(),
+            );
+        }
+        if matches!(opi.k, Unsub) {
+            st.find(
+                "C11",
+                format!("C11|population|unsubscribe-differs-from-model|expected={}|got={}|{}", exp, got, label),
+                &hsr,
+                detail,
+            );
+        }
     }
 }
 
@@ -1586,10 +1905,29 @@ pub fn main(prop: &str, tier: Tier, si: usize, sk: usize) {
             churn(&mut st, fl, fut, cy, early, kind, burst);
         }
     }
-    if matches!(prop, "C14" | "C07" | "C13" | "C15") {
+    if matches!(prop, "C09" | "C03" | "C11" | "C01") {
         let mut j = 0;
         for fl in [Flavour::B, Flavour::M] {
-            for mode in 0..6 {
+            for fut in [false, true] {
+                for k in 1..=12usize {
+                    for lag in [0, k / 2, k] {
+                        for order in 0..3 {
+                            j += 1;
+                            if j % sk != si {
+                                continue;
+                            }
+                            many(&mut st, fl, fut, k, lag, order);
+                        }
+                    }
+                }
+            }
+        }
+        st.configs.push("population:1..12-streams-or-handles".to_string());
+    }
+    if matches!(prop, "C14" | "C07" | "C13" | "C15" | "C11") {
+        let mut j = 0;
+        for fl in [Flavour::B, Flavour::M] {
+            for mode in 0..10 {
                 for k in 1..=12usize {
                     j += 1;
                     if j % sk != si {
